@@ -227,6 +227,25 @@ func c14BodyH(e *c14Env, stamp int, l *obsLog) {
 	l.add("H after-release who %s int1 %s", expect([]byte(d.StrInfo["who"]), stamped(stamp, 40, 1)), expect([]byte(d.IntInfo[1]), stamped(stamp, 4200, 2)))
 }
 
+// HG: two goroutines encode with the SAME parameter maps (a server stamping every response with the same metadata);
+// Encode treats its input as read-only at every moment.
+var c14SharedStr = map[string]string{ttheader.GDPRToken: "shared-token", "who": "everybody"}
+var c14SharedInt = map[uint16]string{3: "three"}
+
+func c14BodyHG(e *c14Env, stamp int, l *obsLog) {
+	ctx := context.Background()
+	for round := 0; round < 2; round++ {
+		sink := e.writer()
+		w := bufiox.NewDefaultWriter(sink)
+		p := ttheader.EncodeParam{Flags: ttheader.HeaderFlags(stamp), SeqID: int32(stamp*7 + round), StrInfo: c14SharedStr, IntInfo: c14SharedInt}
+		_, err := ttheader.Encode(ctx, p, w)
+		err2 := w.Flush()
+		d, err3 := ttheader.DecodeFromBytes(ctx, sink.Got)
+		l.add("HG%d encode %v %v decode %v seq=%d token=%q who=%q three=%q entries=%d/%d", round, err, err2, err3, d.SeqID, d.StrInfo[ttheader.GDPRToken], d.StrInfo["who"], d.IntInfo[3], len(d.StrInfo), len(d.IntInfo))
+		l.add("HG%d shared-maps-intact ok=%v", round, len(c14SharedStr) == 2 && c14SharedStr[ttheader.GDPRToken] == "shared-token" && len(c14SharedInt) == 1)
+	}
+}
+
 func c14BodyB(e *c14Env, stamp int, l *obsLog) {
 	var kept []string
 	var want [][]byte
@@ -424,10 +443,10 @@ type c14Thread struct {
 
 var c14Bodies = map[string]func(e *c14Env, stamp int, l *obsLog){
 	"P": c14BodyP, "S1e": c14BodyS1e, "S3big": c14BodyS3big, "BW": c14BodyBW, "E": c14BodyE, "BR": c14BodyBR,
-	"R": c14BodyR, "W": c14BodyW, "S1": c14BodyS1, "S2": c14BodyS2, "S3": c14BodyS3, "H": c14BodyH, "B": c14BodyB, "BE": c14BodyBE,
+	"R": c14BodyR, "W": c14BodyW, "S1": c14BodyS1, "S2": c14BodyS2, "S3": c14BodyS3, "H": c14BodyH, "B": c14BodyB, "BE": c14BodyBE, "HG": c14BodyHG,
 }
 
-var c14Scenarios = [][]string{{"BE", "BE"}, {"BE", "W"}, {"BR", "W"}, {"BR", "R"}, {"BW", "W"}, {"BW", "BW"}, {"E", "E"}, {"E", "R"}, {"H", "R"}, {"P", "P"}, {"P", "W"}, {"S1e", "S1"}, {"S1e", "S3"}, {"S3big", "S3big"}, {"S3big", "W"}, {"R", "R"}, {"W", "W"}, {"S1", "S1"}, {"S3", "S3"}, {"S2", "S2"}, {"R", "S1"}, {"W", "H"}, {"H", "H"}, {"B", "B", "B"}, {"R", "B"}, {"S3", "S3", "S3"}, {"R", "W", "S3"}, {"S1", "S3", "W"}}
+var c14Scenarios = [][]string{{"HG", "HG"}, {"HG", "H"}, {"BE", "BE"}, {"BE", "W"}, {"BR", "W"}, {"BR", "R"}, {"BW", "W"}, {"BW", "BW"}, {"E", "E"}, {"E", "R"}, {"H", "R"}, {"P", "P"}, {"P", "W"}, {"S1e", "S1"}, {"S1e", "S3"}, {"S3big", "S3big"}, {"S3big", "W"}, {"R", "R"}, {"W", "W"}, {"S1", "S1"}, {"S3", "S3"}, {"S2", "S2"}, {"R", "S1"}, {"W", "H"}, {"H", "H"}, {"B", "B", "B"}, {"R", "B"}, {"S3", "S3", "S3"}, {"R", "W", "S3"}, {"S1", "S3", "W"}}
 
 type c14Case struct {
 	Scenario []string `json:"scenario"`
